@@ -253,9 +253,12 @@ func compute(tier string, seed int64, dir string) *Shared {
 				if v.Tag == "" {
 					run.Outcomes[name] = ModelObs{Panic: true}
 				}
+				if name == "truncateCmp" && v.Tag == "skipArchDependent=false" {
+					run.Outcomes["truncateCmp/noskip"] = ModelObs{Panic: true}
+				}
 				continue
 			}
-			if v.Tag == "" {
+			if v.Tag == "" || (name == "truncateCmp" && v.Tag == "skipArchDependent=false") {
 				mo := ModelObs{Offs: []int{}}
 				for _, d := range out.Diags {
 					off := -1
@@ -264,7 +267,11 @@ func compute(tier string, seed int64, dir string) *Shared {
 					}
 					mo.Offs = append(mo.Offs, off)
 				}
-				run.Outcomes[name] = mo
+				if v.Tag == "" {
+					run.Outcomes[name] = mo
+				} else {
+					run.Outcomes["truncateCmp/noskip"] = mo
+				}
 			}
 			for _, d := range out.Diags {
 				s.Diagnostics++
